@@ -9,7 +9,8 @@ Stage B: TLC enumerates law-directed histories for every payload length 0..67 an
          -simulate walks the state machine itself; the driver executes them on real buffers, and records the full
          guard cube alg 0..255 x bearer 0..255 x direction 0..255 for both calls plus seeded histories.
 Stage C: the trace specification (SecurityApi's own variables, keystream learned from the first observation of each
-         point) checks the laws on the observed histories."""
+         point) checks the laws on the observed histories.
+Added after seeded rounds 3-5: payload lengths around powers of two (255..4096), 8193 and 65 537 octets in the quick tier."""
 import json, os, sys
 from concurrent.futures import ThreadPoolExecutor
 sys.path.insert(0, os.path.dirname(os.path.abspath(__file__)))
